@@ -17,5 +17,7 @@ def run(c, replay):
                 rule="all texts over the 10-symbol alphabet up to the length bound x all admissible patterns x 4 folding modes x 2 directions "
                      "x 2 representations x 7 matchers; non-trivial = calls that reported a match (each checked for a genuine witness); "
                      "states = distinct texts")
+    c.run_layer(b, "TestVerif_C02_ascii_detection", "ascii-detection", deadline_s=60,
+                rule="a^p . X . b^q for p, q in 0..18 and X in {é, 한, 😀}: one non-ASCII character at every offset of the 8-byte words the ASCII check reads, all 7 matchers")
     c.run_layer(b, "TestVerif_C02_thresholds", "thresholds", deadline_s=c.pick(60, 300),
                 rule="lines of length N around 2048-M, 2048, 102400/M, 65536 (+-2) x M in {1,2,3,50,1000,1001} x 6 shapes x 2 fills")
